@@ -734,7 +734,70 @@ def _replace_child(root, old, new):
     return False
 
 
+def _decomprehend(st, defs):
+    """``x = [h(a) for a in xs if c]`` (also ``return [...]``, set and dict
+    comprehensions) whose element calls a new statement-bodied helper, as
+    the loop it abbreviates - so that the helper can be expanded in the
+    loop body."""
+    if not (isinstance(st, (ast.Return, ast.Assign)) and isinstance(
+            st.value, (ast.ListComp, ast.SetComp, ast.DictComp))):
+        return None
+    if isinstance(st, ast.Assign) and not (len(st.targets) == 1 and isinstance(
+            st.targets[0], (ast.Name, ast.Subscript, ast.Attribute))):
+        return None
+    comp = st.value
+    if len(comp.generators) != 1 or comp.generators[0].is_async:
+        return None
+    parts = [comp.key, comp.value] if isinstance(comp, ast.DictComp) \
+        else [comp.elt]
+    hit = False
+    for part in parts:
+        for n in _own_walk([part]):
+            if isinstance(n, ast.Call) and isinstance(n.func, ast.Name) \
+                    and n.func.id in defs and not _expr_bodied(
+                        defs[n.func.id]) and not _is_cm(defs[n.func.id]):
+                hit = True
+    if not hit:
+        return None
+    gen = comp.generators[0]
+    _COUNTER[0] += 1
+    acc = '__lc%d' % _COUNTER[0]
+    if isinstance(comp, ast.ListComp):
+        init = ast.List(elts=[], ctx=ast.Load())
+        add = ast.Expr(value=ast.Call(func=ast.Attribute(
+            value=ast.Name(id=acc, ctx=ast.Load()), attr='append',
+            ctx=ast.Load()), args=[comp.elt], keywords=[]))
+    elif isinstance(comp, ast.SetComp):
+        init = ast.Call(func=ast.Name(id='set', ctx=ast.Load()), args=[],
+                        keywords=[])
+        add = ast.Expr(value=ast.Call(func=ast.Attribute(
+            value=ast.Name(id=acc, ctx=ast.Load()), attr='add',
+            ctx=ast.Load()), args=[comp.elt], keywords=[]))
+    else:
+        init = ast.Dict(keys=[], values=[])
+        add = ast.Assign(targets=[ast.Subscript(
+            value=ast.Name(id=acc, ctx=ast.Load()), slice=comp.key,
+            ctx=ast.Store())], value=comp.value)
+    body = [ast.copy_location(add, st)]
+    for c in reversed(gen.ifs):
+        body = [ast.copy_location(ast.If(test=c, body=body, orelse=[]), st)]
+    loop = ast.For(target=gen.target, iter=gen.iter, body=body, orelse=[])
+    for x in ast.walk(loop.target):
+        if isinstance(x, ast.Name):
+            x.ctx = ast.Store()
+    first = ast.copy_location(ast.Assign(
+        targets=[ast.Name(id=acc, ctx=ast.Store())], value=init), st)
+    st.value = ast.Name(id=acc, ctx=ast.Load())
+    out = [first, ast.copy_location(loop, st), st]
+    for x in out:
+        ast.fix_missing_locations(x)
+    return out
+
+
 def _expand_stmt(st, defs, cms, owner):
+    dc = _decomprehend(st, defs)
+    if dc is not None:
+        return dc
     # context managers
     if isinstance(st, ast.With) and len(st.items) == 1 and \
             st.items[0].optional_vars is None:
